@@ -814,6 +814,17 @@ mod sh {
             scen.push(("lzipr".into(), w, hex(&members.concat()), "end".into(), "lzip.empty_members".into()));
         }
 
+        // a member whose content has CRC-32 = 0 (a trailer field that looks "empty"), alone, in the middle, last
+        {
+            let z: &[u8] = b"payload whose CRC-32 is zero: \x37\x78\x3f\xae";
+            assert_eq!(crate::areas::a_c04::crc32(z), 0);
+            let (a, b) = (lzip_member(&payload(rng, 40)), lzip_member(&payload(rng, 60)));
+            let zm = lzip_member(z);
+            for (i, f) in [zm.clone(), [a.clone(), zm.clone(), b.clone()].concat(), [a.clone(), zm.clone()].concat()].iter().enumerate() {
+                scen.push(("lzipr".into(), 1 + i as u32, hex(f), "end".into(), "lzip.crc_zero_member".into()));
+                cmds.push(format!("mt_scan {}", hex(f)));
+            }
+        }
         // num_workers = 0 (the crate clamps the request into 1..=256): every type must still work
         {
             let m: Vec<u8> = [lzip_member(&payload(rng, 50)), lzip_member(&payload(rng, 70))].concat();
@@ -830,7 +841,7 @@ mod sh {
         // LZMA2WriterMT with a preset dictionary in its options and more than one work unit whose data
         // repeats the preset dictionary: every unit must still be self-contained
         for si in 0..(if thorough { 6 } else { 2 }) {
-            let w = 1 + rng.below(3) as u32;
+            let w = if si % 2 == 0 { 1 } else { 2 + rng.below(2) as u32 };
             let ops = if si % 2 == 0 { format!("w{}", 2 * UNIT + 100) } else { format!("w{}+w{}+f+w{}", UNIT, UNIT / 2, UNIT) };
             let spec = format!("text:{}:{}:p2048", rng.below(1 << 30), ops);
             scen.push(("lzma2w".into(), w, spec, "end".into(), "lzma2w.preset_dict".into()));
@@ -848,6 +859,14 @@ mod sh {
             cmds.push(format!("mt_sched {} {} {} end {} prog={},F", kind, w, spec, vec!["0"; 400].join(","), vec!["W"; nunits].join(",")));
             dist.bump("scenario.backpressure_caller_first");
             scen.push((kind.into(), w, spec, "end".into(), format!("{}.backpressure", kind)));
+        }
+        // a short write followed by one write of at least a whole unit (the staged bytes must go into the
+        // same unit as the head of the big write: unit boundaries do not depend on the partition)
+        for kind in ["lzma2w", "lzipw"] {
+            for ops in [format!("w1+w{}", 2 * UNIT + 5), format!("w100+w{}", UNIT), format!("w{}+w{}+w7", UNIT - 1, 3 * UNIT)] {
+                let w = 1 + rng.below(3) as u32;
+                scen.push((kind.into(), w, format!("text:{}:{}", rng.below(1 << 30), ops), "end".into(), format!("{}.short_then_big_write", kind)));
+            }
         }
         for si in 0..(if thorough { 24 } else { 8 }) {
             let kind = if si % 2 == 0 { "lzma2w" } else { "lzipw" };
@@ -1117,7 +1136,12 @@ mod real {
             }
             verdict = format!("FAIL {} thread(s) still alive 120 s after the last drop [{}]", after - before, st.join(" "));
         }
-        // threads of this process while running: harness pool (16) + runner + workers
+        // threads of this process while running: harness pool + runner + workers; never more workers
+        // than the caller allowed (the crate clamps the request into 1..=256)
+        let limit = (workers as usize).clamp(1, 256);
+        if verdict == "ok" && max_threads > before + 1 + limit {
+            verdict = format!("FAIL {} threads ran at the same time on top of the harness's own, the limit was {} workers", max_threads - before - 1, limit);
+        }
         let o = outcomes.iter().map(|(k, v)| format!("{}x{}", k, v)).collect::<Vec<_>>().join(",");
         (format!("REAL {} leaked={}", o, after.saturating_sub(before)), verdict)
     }
@@ -1125,6 +1149,24 @@ mod real {
     fn one(kind: &str, workers: u32, input: &str, dropa: &str) -> (String, String) {
         let drop_after: Option<usize> = if dropa == "end" { None } else { Some(dropa.parse().unwrap()) };
         match kind {
+            "lziprm" => {
+                // <input> = number of tiny members: a file with MORE members than the worker limit, read with a
+                // worker count request far above the limit (the census of the run bounds the threads)
+                let count: usize = input.parse().unwrap();
+                let mut file = Vec::new();
+                let mut all = Vec::new();
+                for i in 0..count {
+                    let d = format!("member {i} ").into_bytes();
+                    file.extend_from_slice(&lzip_member(&d));
+                    all.extend_from_slice(&d);
+                }
+                let mut out = Vec::new();
+                return match LZIPReaderMT::new(std::io::Cursor::new(file), workers).and_then(|mut r| r.read_to_end(&mut out)) {
+                    Ok(_) if out == all => ("N".into(), "ok".into()),
+                    Ok(_) => ("N".into(), "FAIL MT differs from the members' contents".into()),
+                    Err(e) => (format!("E{}", err_code(&e)), "FAIL MT reader rejects a valid file".into()),
+                };
+            }
             "lzma2r" | "lzipr" => {
                 let (bytes, fail) = parse_input(input);
                 let st = if kind == "lzma2r" { st_lzma2_decode(&bytes) } else { st_lzip_decode(&bytes) };
@@ -1221,6 +1263,39 @@ mod real {
                             }
                         }
                     }};
+                }
+                if kind == "lzma2wf" || kind == "lzipwf" {
+                    // a sink that takes every byte but whose flush() fails: finish() must report the error, and the
+                    // writer dropped afterwards must still release all its workers (the census after the run)
+                    struct FlushFails(Vec<u8>);
+                    impl Write for FlushFails {
+                        fn write(&mut self, b: &[u8]) -> std::io::Result<usize> {
+                            self.0.extend_from_slice(b);
+                            Ok(b.len())
+                        }
+                        fn flush(&mut self) -> std::io::Result<()> {
+                            Err(std::io::Error::new(std::io::ErrorKind::Other, "flush fails"))
+                        }
+                    }
+                    let r = if kind == "lzma2wf" {
+                        let mut opt = LZMA2Options::with_preset(1);
+                        opt.lzma_options.dict_size = DICT;
+                        opt.set_chunk_size(NonZeroU64::new(UNIT as u64));
+                        let mut w = LZMA2WriterMT::new(FlushFails(Vec::new()), opt, workers).unwrap();
+                        let _ = w.write_all(&plan.data);
+                        w.finish().map(|_| ())
+                    } else {
+                        let mut opt = LZIPOptions::with_preset(1);
+                        opt.lzma_options.dict_size = DICT;
+                        opt.set_member_size(NonZeroU64::new(UNIT as u64));
+                        let mut w = LZIPWriterMT::new(FlushFails(Vec::new()), opt, workers).unwrap();
+                        let _ = w.write_all(&plan.data);
+                        w.finish().map(|_| ())
+                    };
+                    return match r {
+                        Ok(()) => ("N".into(), "FAIL the sink's flush error was swallowed by finish()".into()),
+                        Err(e) => (format!("E{}", err_code(&e)), "ok".into()),
+                    };
                 }
                 let out = if kind == "lzma2w" {
                     let mut opt = LZMA2Options::with_preset(1);
